@@ -134,9 +134,15 @@ func TestMessageAndWrapper(t *testing.T) {
 			ev.Label("reject:covered-byte")
 		case 2: // session wrapper whose length field exceeds the data
 			excess := rapid.IntRange(1, 64).Draw(t, "excess")
-			p := ref.BuildPacket(&ref.Packet{PayloadType: ref.PTIPMI, Payload: w}, 0, nil)[4:]
+			pt := rapid.SampledFrom([]uint8{ref.PTIPMI, ref.PTOEM, ref.PTOEM, ref.PTOpenRsp, ref.PTRAKP2, ref.PTRAKP4, 0x20}).Draw(t, "wrapperPayloadType")
+			p := ref.BuildPacket(&ref.Packet{PayloadType: pt, OEMIANA: 0x4321, OEMPayloadID: 7, Payload: w}, 0, nil)[4:]
 			l := len(w) + excess
-			p[10], p[11] = byte(l), byte(l>>8)
+			lo := 10
+			if pt == ref.PTOEM {
+				lo = 16
+			}
+			p[lo], p[lo+1] = byte(l), byte(l>>8)
+			ev.Label(fmt.Sprintf("reject:length-field:pt%#x", pt))
 			var x ipmi.V2Session
 			if err := x.DecodeFromBytes(exact(p), gopacket.NilDecodeFeedback); err == nil {
 				t.Fatalf("session wrapper with length field %d over %d bytes of data accepted", l, len(w))
@@ -189,17 +195,36 @@ func TestChecksumSweep(t *testing.T) {
 				}
 			}
 		}
-		for excess := 1; excess <= 64; excess++ {
-			p := ref.BuildPacket(&ref.Packet{PayloadType: ref.PTIPMI, Payload: w}, 0, nil)[4:]
-			l := len(w) + excess
-			p[10], p[11] = byte(l), byte(l>>8)
-			var x ipmi.V2Session
-			ev.Eval()
-			if err := x.DecodeFromBytes(exact(p), gopacket.NilDecodeFeedback); err == nil {
-				ev.Violation("TestChecksumSweep", map[string]any{"wrapper": fmt.Sprintf("%x", p), "excess": excess}, "wrapper length field exceeding the data accepted")
-				t.Fatalf("wrapper with length excess %d accepted", excess)
+		for _, pt := range []uint8{ref.PTIPMI, ref.PTOEM} {
+			for excess := 1; excess <= 64; excess++ {
+				p := ref.BuildPacket(&ref.Packet{PayloadType: pt, OEMIANA: 0x99, OEMPayloadID: 3, Payload: w}, 0, nil)[4:]
+				l := len(w) + excess
+				lo := 10
+				if pt == ref.PTOEM {
+					lo = 16
+				}
+				p[lo], p[lo+1] = byte(l), byte(l>>8)
+				// both in an exact-capacity slice and inside a larger buffer (where an
+				// over-read would succeed silently)
+				for _, in := range [][]byte{exact(p), append(append([]byte(nil), p...), make([]byte, 80)...)[:len(p)]} {
+					var x ipmi.V2Session
+					var err error
+					func() {
+						defer func() {
+							if r := recover(); r != nil {
+								err = nil
+							}
+						}()
+						err = x.DecodeFromBytes(in, gopacket.NilDecodeFeedback)
+					}()
+					ev.Eval()
+					if err == nil {
+						ev.Violation("TestChecksumSweep", map[string]any{"wrapper": fmt.Sprintf("%x", p), "payloadType": pt, "excess": excess}, "wrapper length field exceeding the data accepted (or panicked)")
+						t.Fatalf("wrapper (payload type %#x) with length excess %d accepted or panicked", pt, excess)
+					}
+				}
+				ev.NonTrivial(fmt.Sprintf("len|%d|%d|%d", mi, pt, excess))
 			}
-			ev.NonTrivial(fmt.Sprintf("len|%d|%d", mi, excess))
 		}
 	}
 	ev.Label("sweep:checksums")
